@@ -1425,3 +1425,699 @@ Proof.
   intros h log m. unfold apply_dlog. apply forallb_map_Forall. apply Forall_forall. intros s _.
   apply id_free_map_args. intros a. apply attach_default_keeps.
 Qed.
+
+(* ------------------------------------------------------------------ the visit with an argument as replacement, when the
+   first addressed node is no visited statement *)
+Section VisitArgKind.
+  Variable q : loc.
+  Variable a0 : aarg.
+
+  Definition vk_ok (s : astmt) : Prop :=
+    forall st, rw_replaced st = false -> rw_node st = NArg a0 ->
+      (forall h, first_hit q s = Some h -> id_free h s = true) ->
+      exists s' st', visit_stmt q st s = Ok (s', st') /\ rw_node st' = NArg a0
+                     /\ (stmt_exists dirty s = false -> stmt_exists dirty s' = false).
+
+  Lemma vk_list_of : forall l, Forall vk_ok l ->
+    forall st, rw_replaced st = false -> rw_node st = NArg a0 ->
+      (forall h, first_hit_list q l = Some h -> forallb (id_free h) l = true) ->
+      exists l' st', visit_list q st l = Ok (l', st') /\ rw_node st' = NArg a0
+                     /\ (existsb (stmt_exists dirty) l = false -> existsb (stmt_exists dirty) l' = false).
+  Proof.
+    intros l H. induction H as [|x l Hx Hl IH]; intros st Hu Hn Hh.
+    - exists [], st. repeat split; auto.
+    - assert (Hhx : forall h, first_hit q x = Some h -> id_free h x = true).
+      { intros h E. specialize (Hh h). simpl in Hh. rewrite E in Hh. specialize (Hh eq_refl).
+        apply andb_true_iff in Hh. destruct Hh; assumption. }
+      destruct (Hx st Hu Hn Hhx) as [x' [st1 [E1 [N1 D1]]]].
+      destruct (frame_stmt_all q x st x' st1 Hu E1) as [[R1 [F1 _]]|[R1 _]].
+      + assert (Hhl : forall h, first_hit_list q l = Some h -> forallb (id_free h) l = true).
+        { intros h E. specialize (Hh h). simpl in Hh. rewrite F1 in Hh. specialize (Hh E).
+          apply andb_true_iff in Hh. destruct Hh; assumption. }
+        destruct (IH st1 R1 N1 Hhl) as [l' [st2 [E2 [N2 D2]]]].
+        exists (x' :: l'), st2. simpl. rewrite E1. simpl. rewrite E2. simpl. split; [reflexivity|]. split; [assumption|].
+        intros Hd. apply orb_false_iff in Hd. destruct Hd as [Hd1 Hd2]. rewrite (D1 Hd1), (D2 Hd2). reflexivity.
+      + exists (x' :: l), st1. simpl. rewrite E1. simpl. rewrite (visit_list_id q l st1 R1). simpl.
+        split; [reflexivity|]. split; [assumption|].
+        intros Hd. apply orb_false_iff in Hd. destruct Hd as [Hd1 Hd2]. rewrite (D1 Hd1), Hd2. reflexivity.
+  Qed.
+
+  Lemma vk_blocks_of : forall bl, Forall (Forall vk_ok) bl ->
+    forall st, rw_replaced st = false -> rw_node st = NArg a0 ->
+      (forall h, first_hit_blocks q bl = Some h -> forallb (fun b => forallb (id_free h) b) bl = true) ->
+      exists bl' st', visit_blocks q st bl = Ok (bl', st') /\ rw_node st' = NArg a0
+                      /\ (existsb (fun b => existsb (stmt_exists dirty) b) bl = false
+                          -> existsb (fun b => existsb (stmt_exists dirty) b) bl' = false).
+  Proof.
+    intros bl H. induction H as [|b bl Hb Hbl IH]; intros st Hu Hn Hh.
+    - exists [], st. repeat split; auto.
+    - assert (Hhb : forall h, first_hit_list q b = Some h -> forallb (id_free h) b = true).
+      { intros h E. specialize (Hh h). simpl in Hh. rewrite E in Hh. specialize (Hh eq_refl).
+        apply andb_true_iff in Hh. destruct Hh; assumption. }
+      destruct (vk_list_of b Hb st Hu Hn Hhb) as [b' [st1 [E1 [N1 D1]]]].
+      destruct (frame_list q b st b' st1 Hu E1) as [[R1 [F1 _]]|[R1 _]].
+      + assert (Hhl : forall h, first_hit_blocks q bl = Some h -> forallb (fun b0 => forallb (id_free h) b0) bl = true).
+        { intros h E. specialize (Hh h). simpl in Hh. rewrite F1 in Hh. specialize (Hh E).
+          apply andb_true_iff in Hh. destruct Hh; assumption. }
+        destruct (IH st1 R1 N1 Hhl) as [bl' [st2 [E2 [N2 D2]]]].
+        exists (b' :: bl'), st2. simpl. rewrite E1. simpl. rewrite E2. simpl. split; [reflexivity|]. split; [assumption|].
+        intros Hd. apply orb_false_iff in Hd. destruct Hd as [Hd1 Hd2]. rewrite (D1 Hd1), (D2 Hd2). reflexivity.
+      + exists (b' :: bl), st1. simpl. rewrite E1. simpl. rewrite (visit_blocks_id q bl st1 R1). simpl.
+        split; [reflexivity|]. split; [assumption|].
+        intros Hd. apply orb_false_iff in Hd. destruct Hd as [Hd1 Hd2]. rewrite (D1 Hd1), Hd2. reflexivity.
+  Qed.
+
+  Lemma vk_leaf : forall s,
+      (forall st, visit_stmt q st s
+                  = if negb (rw_replaced st) && oloc_eqb (stmt_loc s) q
+                    then (do r <- node_as_stmt (rw_node st); Ok (r, mkRw true (rw_node st))) else Ok (s, st)) ->
+      first_hit q s = (if oloc_eqb (stmt_loc s) q then Some (stmt_id s) else None) ->
+      id_free (stmt_id s) s = false ->
+      vk_ok s.
+  Proof.
+    intros s Hvs Hfh Hidf st Hu Hn Hh. rewrite Hvs. destruct (oloc_eqb (stmt_loc s) q) eqn:El.
+    - specialize (Hh _ Hfh). congruence.
+    - rewrite andb_false_r. exists s, st. repeat split; auto.
+  Qed.
+
+  Lemma vk_all : forall s, vk_ok s.
+  Proof.
+    induction s using astmt_ind2.
+    - intros st Hu Hn Hh.
+      change (visit_stmt q st (AFunc i l n a b d r)) with (visit_FunctionDef q st (AFunc i l n a b d r)).
+      unfold visit_FunctionDef. destruct (negb (rw_replaced st) && oloc_eqb l (removelast q)).
+      + rewrite Hn. simpl.
+        destruct (replace_first_arg q a0 (aar_args a)) as [args1 b1].
+        destruct (replace_first_arg q a0 (aar_kwonly a)) as [kw1 b2].
+        eexists. eexists. split; [reflexivity|]. split; [reflexivity|].
+        rewrite !stmt_exists_func. simpl. auto.
+      + exists (AFunc i l n a b d r), st. repeat split; auto.
+    - intros st Hu Hn Hh. rewrite visit_stmt_class. rewrite first_hit_class in Hh.
+      destruct (oloc_eqb l q) eqn:El.
+      + specialize (Hh i eq_refl). simpl in Hh. rewrite path_eqb_refl in Hh. discriminate.
+      + rewrite andb_false_r.
+        assert (Hhb : forall h, first_hit_list q b = Some h -> forallb (id_free h) b = true).
+        { intros h E. specialize (Hh h E). simpl in Hh. apply andb_true_iff in Hh. destruct Hh; assumption. }
+        destruct (vk_list_of b H st Hu Hn Hhb) as [b' [st1 [E1 [N1 D1]]]]. rewrite E1. simpl.
+        eexists. eexists. split; [reflexivity|]. split; [assumption|].
+        rewrite !stmt_exists_class. simpl. exact D1.
+    - apply vk_leaf; try reflexivity. simpl. rewrite path_eqb_refl. reflexivity.
+    - apply vk_leaf; try reflexivity. simpl. rewrite path_eqb_refl. reflexivity.
+    - apply vk_leaf; try reflexivity. simpl. rewrite path_eqb_refl. reflexivity.
+    - apply vk_leaf; try reflexivity. simpl. rewrite path_eqb_refl. reflexivity.
+    - intros st Hu Hn Hh. rewrite visit_stmt_other. rewrite first_hit_other in Hh.
+      destruct (vk_blocks_of bl H st Hu Hn Hh) as [bl' [st1 [E1 [N1 D1]]]]. rewrite E1. simpl.
+      eexists. eexists. split; [reflexivity|]. split; [assumption|].
+      rewrite !stmt_exists_other. simpl. exact D1.
+    - apply vk_leaf; try reflexivity. simpl. rewrite path_eqb_refl. reflexivity.
+  Qed.
+
+  Lemma rewrite_arg_ok' : forall t p,
+      q <> [] -> first_hit_list q t = Some p -> forallb (id_free p) t = true ->
+      existsb (stmt_exists dirty) t = false ->
+      exists g st, rewrite_visit q (NArg a0) t = Ok (NMod g, st) /\ rw_replaced st = true
+                   /\ rw_node st = NArg a0 /\ existsb (stmt_exists dirty) g = false.
+  Proof.
+    intros t p Hq Hf Hp Hd.
+    assert (Hall : Forall vk_ok t) by (apply Forall_forall; intros x _; apply vk_all).
+    assert (Hh : forall h, first_hit_list q t = Some h -> forallb (id_free h) t = true).
+    { intros h E. rewrite Hf in E. inversion E; subst. assumption. }
+    destruct (vk_list_of t Hall (mkRw false (NArg a0)) eq_refl eq_refl Hh) as [g [st [E [N D]]]].
+    assert (Hv : rewrite_visit q (NArg a0) t = Ok (NMod g, st)).
+    { unfold rewrite_visit. destruct q; [contradiction|]. rewrite E. reflexivity. }
+    exists g, st. split; [assumption|]. split; [|split; [assumption | apply D; assumption]].
+    rewrite (C15_rewrite_position q (NArg a0) t g st Hq Hv), Hf. reflexivity.
+  Qed.
+End VisitArgKind.
+
+(* the same without target_unshadowed *)
+Theorem C14_total_lemma' : forall x, guard_C14_total' x = true -> C14_total_holds x.
+Proof.
+  intros x Hg. unfold guard_C14_total' in Hg.
+  apply andb_true_iff in Hg. destruct Hg as [Hg Hwr].
+  apply andb_true_iff in Hg. destruct Hg as [Hg Hres].
+  unfold guard_C14 in Hg. apply andb_true_iff in Hg. destruct Hg as [Hdom Hcls].
+  destruct (finding_class_C14 x) eqn:Ec; [discriminate|]. clear Hcls. unfold finding_class_C14 in Ec.
+  destruct (ci_eval x) eqn:Hev; [discriminate|].
+  destruct (first_pair_class x (ci_ips x) (ci_ops x)) eqn:Efp; [discriminate|].
+  destruct (Nat.ltb 1 (List.length (ci_ips x))) eqn:Elen; [discriminate|]. clear Ec.
+  destruct (domain_facts x Hdom) as [Hsi [Hso [Hleq [Hne [Hleafin Hleafout]]]]].
+  assert (Hshape : exists ip op, ci_ips x = [ip] /\ ci_ops x = [op]).
+  { revert Hleq Hne Elen. destruct (ci_ips x) as [|ip [|ip2 r]]; destruct (ci_ops x) as [|op [|op2 r']];
+      simpl; intros; try discriminate. eauto. }
+  destruct Hshape as [ip [op [Eips Eops]]].
+  (* both addresses resolve, to leaves *)
+  unfold addresses_resolve, out_positions, in_nodes in Hres. rewrite Eips, Eops, Hev in Hres. simpl in Hres.
+  destruct (resolve (dotted op) (ci_out x)) as [[p0 dst]|] eqn:Ero; simpl in Hres; [|discriminate].
+  destruct (resolve (dotted ip) (ci_in x)) as [[pi0 src]|] eqn:Eri; simpl in Hres; [|discriminate].
+  unfold in_nodes in Hleafin. rewrite Eips in Hleafin. simpl in Hleafin. rewrite Eri, andb_true_r in Hleafin.
+  rewrite Eops in Hleafout. simpl in Hleafout. rewrite Ero, andb_true_r in Hleafout.
+  pose proof (resolve_at_some [0] _ _ _ _ (dotted_nonempty op) Ero) as Hro.
+  pose proof (resolve_at_some [1] _ _ _ _ (dotted_nonempty ip) Eri) as Hri.
+  simpl app in Hro, Hri.
+  (* the pair is in no finding class *)
+  rewrite Eips, Eops in Efp. simpl in Efp. destruct (pair_class x ip op) eqn:Epc; [discriminate|]. clear Efp.
+  destruct (pair_class_facts x ip op Hev Epc) as [Hin Hout]. rewrite Hro in Hout. simpl in Hout.
+  unfold pair_class in Epc. rewrite Hev, Hin in Epc.
+  destruct (rw_finding_class_at [0] (ci_out x) (dotted op)) eqn:E2; [discriminate|].
+  rewrite Hri, Hro in Epc.
+  destruct (is_parg src && negb (is_parg dst)) eqn:G1; [discriminate|].
+  destruct (negb (is_parg src) && is_parg dst) eqn:G2; [discriminate|].
+  match type of Epc with context [if ?c then Some K14_wrap_without_annotation else _] => destruct c eqn:G3 end;
+    [discriminate|].
+  destruct (negb (is_parg dst) && existsb (stmt_exists (is_parent_func (dotted op))) (annotate_at [0] (ci_out x)))
+           eqn:G4; [discriminate|]. clear Epc.
+  unfold rw_finding_class_at in E2.
+  destruct (const_hazard (dotted op) (annotate_at [0] (ci_out x))) eqn:Ehz; [discriminate|]. clear E2.
+  (* the input node is found *)
+  pose proof (C15_partial_at [1] _ _ Hsi Hin) as Hfv. rewrite Hri in Hfv. unfold find_view_at, find_in_ast in Hfv.
+  destruct (find_in_ast_log (dotted ip) (annotate_at [1] (ci_in x))) as [[rn log]|er] eqn:Efind; simpl in Hfv; [|discriminate].
+  destruct rn as [n|]; simpl in Hfv; [|discriminate]. inversion Hfv as [Hview]. clear Hfv.
+  (* the template step *)
+  assert (Hwr' : forall w0 e, ci_wrap x = Some w0 -> src_ann src = Some e -> is_ok (wrap_annotation (ci_env x) w0 e) = true).
+  { intros w0 e Hw0 Hsa. unfold wrap_ready in Hwr. rewrite Hw0 in Hwr. unfold in_nodes in Hwr. rewrite Eips in Hwr.
+    simpl in Hwr. rewrite Eri, Hsa, andb_true_r in Hwr. exact Hwr. }
+  set (i0 := annotate_at [1] (ci_in x)) in *. set (o0 := annotate_at [0] (ci_out x)) in *.
+  destruct (apply_wrap_leaf (ci_env x) (ci_wrap x) n (apply_dlog log i0) (apply_dlog log o0) (1 :: pi0) src
+                            Hview Hleafin G3 Hwr')
+    as [repl [i2 [o2 [want [Hw [Ho2 [Hrv [Hcont [Hexp Hkind]]]]]]]]].
+  set (t := apply_dlog log o0) in *.
+  assert (Ho2' : o2 = t).
+  { destruct Ho2 as [E|[e E]]; [assumption|]. subst o2. apply set_ann_by_id_absent. apply output_ids_after_dlog. }
+  subst o2.
+  assert (T1 : const_hazard (dotted op) t = false) by (unfold t; rewrite const_hazard_apply_dlog; assumption).
+  assert (T2 : first_hit_list (dotted op) t = Some (0 :: p0)).
+  { unfold t, apply_dlog. rewrite first_hit_list_map_all; [exact Hout|].
+    intros s. apply first_hit_map_args. apply attach_default_keeps. }
+  assert (T3 : existsb (stmt_exists dirty) t = false).
+  { unfold t. rewrite exists_apply_dlog; [apply annotate_clean | intros s; apply dirty_map_args]. }
+  assert (Hrw : exists g st, rewrite_visit (dotted op) repl t = Ok (NMod g, st) /\ rw_replaced st = true
+                             /\ rw_node st = repl /\ existsb (stmt_exists dirty) g = false).
+  { destruct Hkind as [[Hpa [a Ha]]|[Hps [s0 [Hs0 Hcl]]]]; subst repl.
+    - rewrite Hpa in G1. simpl in G1. apply negb_false_iff in G1.
+      destruct dst as [dm|ds|da]; simpl in G1; try discriminate.
+      apply rewrite_arg_ok' with (p := 0 :: p0); try assumption; [apply dotted_nonempty|].
+      unfold t. rewrite id_free_apply_dlog. exact (arg_free_module _ _ _ _ _ Hro).
+    - rewrite Hps in G2. simpl in G2. rewrite G2 in G4. simpl in G4.
+      apply rewrite_stmt_ok with (p := 0 :: p0); try assumption; [apply dotted_nonempty|].
+      unfold t. rewrite exists_apply_dlog; [exact G4 | intros s; apply parent_map_args]. }
+  destruct Hrw as [g [st [Hrv' [Hrep [Hnode Hclean]]]]].
+  assert (Hpd : is_parg dst = is_parg src).
+  { destruct (is_parg src); destruct (is_parg dst); simpl in *; congruence. }
+  destruct (C15_rewrite_frame_lemma (dotted op) repl t g st (dotted_nonempty op) Hrv') as [[Hf _]|[_ [p' [Hfh Hrf]]]];
+    [congruence|].
+  rewrite T2 in Hfh. inversion Hfh; subst p'. rewrite Hnode in Hrf.
+  exists ip, op, g, (0 :: p0), dst, (1 :: pi0), src, log, repl, want.
+  split; [assumption|]. split; [assumption|]. split.
+  { apply (run_single x ip op i0 o0 g i2); try assumption.
+    - unfold ast_parse. rewrite Hsi. reflexivity.
+    - unfold ast_parse. rewrite Hso. reflexivity.
+    - intros e. rewrite Hev. eapply sync_property_success; eassumption.
+    - apply clean_emit. assumption. }
+  split; [assumption|]. split; [assumption|]. split; [apply erase_apply_dlog_annotate|].
+  split; [assumption|]. split; [assumption|].
+  apply Hexp; try reflexivity; assumption.
+Qed.
+
+Theorem C14_success_lemma' : forall x, guard_C14_total' x = true ->
+    exists tree, run_C14 x = ([EvWrite FOutput tree], Ok tt).
+Proof.
+  intros x H. destruct (C14_total_lemma' x H) as [ip [op [tree [p [dst [pi [src [log [repl [want [_ [_ [Hr _]]]]]]]]]]]]].
+  exists tree. exact Hr.
+Qed.
+
+Theorem C14_partial_total_lemma' : forall x, guard_C14_total' x = true -> C14_total_holds x /\ C14_holds x.
+Proof.
+  intros x H. split; [apply C14_total_lemma'; assumption|]. apply C14_partial_lemma.
+  unfold guard_C14_total' in H. do 2 (apply andb_true_iff in H; destruct H as [H _]). exact H.
+Qed.
+
+(* the former counterexample to the sufficiency-only condition is now covered *)
+Lemma C14_total_shadow_covered :
+  guard_C14_total' (w_call w_in [L "f.a"] w_out_shadow [L "C.z"] None) = true
+  /\ guard_C14_total (w_call w_in [L "f.a"] w_out_shadow [L "C.z"] None) = false.
+Proof. split; vm_compute; reflexivity. Qed.
+
+(* ====================================================================== several pairs: success *)
+Lemma map_args_stmt_id : forall f, (forall a, f a = a) -> forall s, map_args_stmt f s = s.
+Proof.
+  intros f Hf. induction s using astmt_ind2; try reflexivity.
+  - simpl. f_equal.
+    + destruct a as [aa ad ak akd av akw]. unfold map_arguments. simpl.
+      rewrite !map_id_Forall by (apply Forall_forall; intros; apply Hf). reflexivity.
+    + apply map_id_Forall. assumption.
+  - simpl. f_equal. apply map_id_Forall. assumption.
+  - simpl. f_equal. apply map_id_Forall.
+    induction H as [|b0 bl0 Hb Hbl IHbl]; constructor; [|assumption]. apply map_id_Forall. assumption.
+  - simpl. rewrite Hf. reflexivity.
+Qed.
+
+Lemma apply_dlog_nil : forall m, apply_dlog [] m = m.
+Proof.
+  intros m. unfold apply_dlog. apply map_id_Forall. apply Forall_forall. intros s _.
+  apply map_args_stmt_id. intros a. destruct a; reflexivity.
+Qed.
+
+(* what a visit preserves of the predicates the next pairs need, when the replacement node is not converted *)
+Section VisitGood.
+  Variable q : loc.
+  Variable r0 : anode.
+  Variable rs0 : astmt.
+  Hypothesis Hrs0 : node_as_stmt r0 = Ok rs0.
+
+  Definition vg_concl (s s' : astmt) : Prop :=
+    (forall h, id_free h rs0 = true -> id_free h s = true -> id_free h s' = true)
+    /\ (forall q', stmt_exists (is_parent_func q') rs0 = false ->
+                   stmt_exists (is_parent_func q') s = false -> stmt_exists (is_parent_func q') s' = false)
+    /\ (forall seg, stmt_hazard seg rs0 = false -> stmt_hazard seg s = false -> stmt_hazard seg s' = false).
+
+  Definition vg_ok (s : astmt) : Prop :=
+    forall st s' st', visit_stmt q st s = Ok (s', st') -> rw_node st = r0 ->
+      (is_arg_node r0 = true \/ stmt_exists (is_parent_func q) s = false) ->
+      rw_node st' = r0 /\ vg_concl s s'.
+
+  Definition vg_list_concl (l l' : list astmt) : Prop :=
+    (forall h, id_free h rs0 = true -> forallb (id_free h) l = true -> forallb (id_free h) l' = true)
+    /\ (forall q', stmt_exists (is_parent_func q') rs0 = false ->
+                   existsb (stmt_exists (is_parent_func q')) l = false -> existsb (stmt_exists (is_parent_func q')) l' = false)
+    /\ (forall seg, stmt_hazard seg rs0 = false ->
+                    existsb (stmt_hazard seg) l = false -> existsb (stmt_hazard seg) l' = false).
+
+  Lemma vg_list_of : forall l, Forall vg_ok l ->
+    forall st l' st', visit_list q st l = Ok (l', st') -> rw_node st = r0 ->
+      (is_arg_node r0 = true \/ existsb (stmt_exists (is_parent_func q)) l = false) ->
+      rw_node st' = r0 /\ vg_list_concl l l'.
+  Proof.
+    intros l H. induction H as [|x l Hx Hl IH]; intros st l' st' Hv Hn Hd; simpl in Hv.
+    - injection Hv as Ei1 Ei2; subst l' st'. split; [first [assumption | reflexivity]|]. repeat split; auto.
+    - destruct (visit_stmt q st x) as [[x' st1]|er] eqn:Ex; simpl in Hv; [|discriminate].
+      destruct (visit_list q st1 l) as [[l1 st2]|er] eqn:El; simpl in Hv; [|discriminate].
+      injection Hv as Ei1 Ei2; subst l' st'.
+      assert (Hd1 : is_arg_node r0 = true \/ stmt_exists (is_parent_func q) x = false).
+      { destruct Hd as [Hd|Hd]; [left; assumption|]. simpl in Hd. apply orb_false_iff in Hd. right. tauto. }
+      assert (Hd2 : is_arg_node r0 = true \/ existsb (stmt_exists (is_parent_func q)) l = false).
+      { destruct Hd as [Hd|Hd]; [left; assumption|]. simpl in Hd. apply orb_false_iff in Hd. right. tauto. }
+      destruct (Hx st x' st1 Ex Hn Hd1) as [N1 [A1 [B1 C1]]].
+      destruct (IH st1 l1 st2 El N1 Hd2) as [N2 [A2 [B2 C2]]].
+      split; [assumption|]. split; [|split].
+      + intros h Hr Hs. simpl in *. apply andb_true_iff in Hs. destruct Hs as [Hs1 Hs2].
+        rewrite (A1 h Hr Hs1), (A2 h Hr Hs2). reflexivity.
+      + intros q' Hr Hs. simpl in *. apply orb_false_iff in Hs. destruct Hs as [Hs1 Hs2].
+        rewrite (B1 q' Hr Hs1), (B2 q' Hr Hs2). reflexivity.
+      + intros seg Hr Hs. simpl in *. apply orb_false_iff in Hs. destruct Hs as [Hs1 Hs2].
+        rewrite (C1 seg Hr Hs1), (C2 seg Hr Hs2). reflexivity.
+  Qed.
+
+  Definition vg_blocks_concl (bl bl' : list (list astmt)) : Prop :=
+    (forall h, id_free h rs0 = true -> forallb (fun b => forallb (id_free h) b) bl = true
+               -> forallb (fun b => forallb (id_free h) b) bl' = true)
+    /\ (forall q', stmt_exists (is_parent_func q') rs0 = false ->
+                   existsb (fun b => existsb (stmt_exists (is_parent_func q')) b) bl = false
+                   -> existsb (fun b => existsb (stmt_exists (is_parent_func q')) b) bl' = false)
+    /\ (forall seg, stmt_hazard seg rs0 = false ->
+                    existsb (fun b => existsb (stmt_hazard seg) b) bl = false
+                    -> existsb (fun b => existsb (stmt_hazard seg) b) bl' = false).
+
+  Lemma vg_blocks_of : forall bl, Forall (Forall vg_ok) bl ->
+    forall st bl' st', visit_blocks q st bl = Ok (bl', st') -> rw_node st = r0 ->
+      (is_arg_node r0 = true \/ existsb (fun b => existsb (stmt_exists (is_parent_func q)) b) bl = false) ->
+      rw_node st' = r0 /\ vg_blocks_concl bl bl'.
+  Proof.
+    intros bl H. induction H as [|b bl Hb Hbl IH]; intros st bl' st' Hv Hn Hd; simpl in Hv.
+    - injection Hv as Ei1 Ei2; subst bl' st'. split; [first [assumption | reflexivity]|]. repeat split; auto.
+    - destruct (visit_list q st b) as [[b' st1]|er] eqn:Eb; simpl in Hv; [|discriminate].
+      destruct (visit_blocks q st1 bl) as [[bl1 st2]|er] eqn:El; simpl in Hv; [|discriminate].
+      injection Hv as Ei1 Ei2; subst bl' st'.
+      assert (Hd1 : is_arg_node r0 = true \/ existsb (stmt_exists (is_parent_func q)) b = false).
+      { destruct Hd as [Hd|Hd]; [left; assumption|]. simpl in Hd. apply orb_false_iff in Hd. right. tauto. }
+      assert (Hd2 : is_arg_node r0 = true \/ existsb (fun b0 => existsb (stmt_exists (is_parent_func q)) b0) bl = false).
+      { destruct Hd as [Hd|Hd]; [left; assumption|]. simpl in Hd. apply orb_false_iff in Hd. right. tauto. }
+      destruct (vg_list_of b Hb st b' st1 Eb Hn Hd1) as [N1 [A1 [B1 C1]]].
+      destruct (IH st1 bl1 st2 El N1 Hd2) as [N2 [A2 [B2 C2]]].
+      split; [assumption|]. split; [|split].
+      + intros h Hr Hs. simpl in *. apply andb_true_iff in Hs. destruct Hs as [Hs1 Hs2].
+        rewrite (A1 h Hr Hs1), (A2 h Hr Hs2). reflexivity.
+      + intros q' Hr Hs. simpl in *. apply orb_false_iff in Hs. destruct Hs as [Hs1 Hs2].
+        rewrite (B1 q' Hr Hs1), (B2 q' Hr Hs2). reflexivity.
+      + intros seg Hr Hs. simpl in *. apply orb_false_iff in Hs. destruct Hs as [Hs1 Hs2].
+        rewrite (C1 seg Hr Hs1), (C2 seg Hr Hs2). reflexivity.
+  Qed.
+
+  Lemma vg_leaf : forall s,
+      (forall st, visit_stmt q st s
+                  = if negb (rw_replaced st) && oloc_eqb (stmt_loc s) q
+                    then (do r <- node_as_stmt (rw_node st); Ok (r, mkRw true (rw_node st))) else Ok (s, st)) ->
+      vg_ok s.
+  Proof.
+    intros s Hvs st s' st' Hv Hn Hd. rewrite Hvs in Hv.
+    destruct (negb (rw_replaced st) && oloc_eqb (stmt_loc s) q).
+    - rewrite Hn, Hrs0 in Hv. simpl in Hv. injection Hv as Ei1 Ei2; subst s' st'. split; [first [assumption | reflexivity]|]. repeat split; auto.
+    - injection Hv as Ei1 Ei2; subst s' st'. split; [first [assumption | reflexivity]|]. repeat split; auto.
+  Qed.
+
+  Lemma vg_all : forall s, vg_ok s.
+  Proof.
+    induction s using astmt_ind2.
+    - intros st s' st' Hv Hn Hd. destruct Hd as [Hd|Hd].
+      + rewrite <- Hn in Hd. destruct (is_arg_node_conv _ _ _ _ _ _ _ _ _ _ _ Hd Hv) as [N [a' [Es Ed]]].
+        subst s'. split; [congruence|]. split; [|split].
+        * intros; reflexivity.
+        * intros q' _ Hs. rewrite stmt_exists_func in *. exact Hs.
+        * intros; reflexivity.
+      + apply stmt_exists_head in Hd. simpl in Hd.
+        change (visit_stmt q st (AFunc i l n a b d r)) with (visit_FunctionDef q st (AFunc i l n a b d r)) in Hv.
+        unfold visit_FunctionDef in Hv. rewrite Hd, andb_false_r in Hv. injection Hv as Ei1 Ei2; subst s' st'.
+        split; [first [assumption | reflexivity]|]. repeat split; auto.
+    - intros st s' st' Hv Hn Hd. rewrite visit_stmt_class in Hv.
+      destruct (negb (rw_replaced st) && oloc_eqb l q).
+      + rewrite Hn, Hrs0 in Hv. simpl in Hv. injection Hv as Ei1 Ei2; subst s' st'. split; [first [assumption | reflexivity]|]. repeat split; auto.
+      + destruct (visit_list q st b) as [[b' st1]|er] eqn:Eb; simpl in Hv; [|discriminate]. injection Hv as Ei1 Ei2; subst s' st'.
+        assert (Hd' : is_arg_node r0 = true \/ existsb (stmt_exists (is_parent_func q)) b = false).
+        { destruct Hd as [Hd|Hd]; [left; assumption|]. rewrite stmt_exists_class in Hd.
+          apply orb_false_iff in Hd. right. tauto. }
+        destruct (vg_list_of b H st b' st1 Eb Hn Hd') as [N1 [A1 [B1 C1]]].
+        split; [assumption|]. split; [|split].
+        * intros h Hr Hs. simpl in *. apply andb_true_iff in Hs. destruct Hs as [Hs1 Hs2].
+          rewrite Hs1, (A1 h Hr Hs2). reflexivity.
+        * intros q' Hr Hs. rewrite stmt_exists_class in *. apply orb_false_iff in Hs. destruct Hs as [Hs1 Hs2].
+          simpl. exact (B1 q' Hr Hs2).
+        * intros seg Hr Hs. simpl in *. apply orb_false_iff in Hs. destruct Hs as [Hs1 Hs2].
+          rewrite Hs1, (C1 seg Hr Hs2). reflexivity.
+    - apply vg_leaf; intros; reflexivity.
+    - apply vg_leaf; intros; reflexivity.
+    - apply vg_leaf; intros; reflexivity.
+    - apply vg_leaf; intros; reflexivity.
+    - intros st s' st' Hv Hn Hd. rewrite visit_stmt_other in Hv.
+      destruct (visit_blocks q st bl) as [[bl' st1]|er] eqn:Eb; simpl in Hv; [|discriminate]. injection Hv as Ei1 Ei2; subst s' st'.
+      assert (Hd' : is_arg_node r0 = true \/ existsb (fun b0 => existsb (stmt_exists (is_parent_func q)) b0) bl = false).
+      { destruct Hd as [Hd|Hd]; [left; assumption|]. rewrite stmt_exists_other in Hd.
+        apply orb_false_iff in Hd. right. tauto. }
+      destruct (vg_blocks_of bl H st bl' st1 Eb Hn Hd') as [N1 [A1 [B1 C1]]].
+      split; [assumption|]. split; [|split].
+      + intros hh Hr Hs. simpl in *. exact (A1 hh Hr Hs).
+      + intros q' Hr Hs. rewrite stmt_exists_other in *. apply orb_false_iff in Hs. destruct Hs as [Hs1 Hs2].
+        simpl. exact (B1 q' Hr Hs2).
+      + intros seg Hr Hs. simpl in *. apply orb_false_iff in Hs. destruct Hs as [Hs1 Hs2].
+        rewrite Hs1. simpl. exact (C1 seg Hr Hs2).
+    - apply vg_leaf; intros; reflexivity.
+  Qed.
+
+  Lemma rewrite_good : forall t g st,
+      q <> [] -> rewrite_visit q r0 t = Ok (NMod g, st) ->
+      (is_arg_node r0 = true \/ existsb (stmt_exists (is_parent_func q)) t = false) ->
+      vg_list_concl t g.
+  Proof.
+    intros t g st Hq Hv Hd. unfold rewrite_visit in Hv. destruct q as [|x q0] eqn:Eq; [contradiction|].
+    rewrite <- Eq in *.
+    destruct (visit_list q (mkRw false r0) t) as [[l st1]|er] eqn:E; simpl in Hv; [|discriminate].
+    inversion Hv; subst l st1.
+    assert (Hall : Forall vg_ok t) by (apply Forall_forall; intros y _; apply vg_all).
+    destruct (vg_list_of t Hall _ _ _ E eq_refl Hd) as [_ C]. exact C.
+  Qed.
+End VisitGood.
+
+(* ------------------------------------------------------------------ the loop succeeds *)
+Definition is_leaf_astmt (s : astmt) : bool :=
+  match s with AAnnAssign _ _ _ _ _ => true | AAssign _ _ _ _ => true | _ => false end.
+
+Lemma leaf_node_cases : forall n id src, node_view n = (id, src) -> leaf_pnode src = true ->
+    (is_parg src = true /\ exists a, n = NArg a /\ aa_id a = id)
+    \/ (is_parg src = false /\ exists s0, n = NStmt s0 /\ stmt_id s0 = id /\ is_leaf_astmt s0 = true).
+Proof.
+  intros n id src Hv Hl. destruct src as [m|s|a]; simpl in Hl; try discriminate.
+  - right. split; [reflexivity|]. destruct s; try discriminate.
+    + destruct (view_annassign _ _ _ _ _ Hv) as [l E]. subst. eexists. repeat split.
+    + destruct (view_assign _ _ _ _ Hv) as [l E]. subst. eexists. repeat split.
+  - left. split; [reflexivity|]. destruct (view_arg _ _ _ Hv) as [a' [E [Hid _]]]. exists a'. split; assumption.
+Qed.
+
+Lemma leaf_astmt_facts : forall s0, is_leaf_astmt s0 = true ->
+    stmt_exists dirty s0 = false /\ is_container (NStmt s0) = false
+    /\ (forall q', stmt_exists (is_parent_func q') s0 = false)
+    /\ (forall h, id_free h s0 = negb (path_eqb (stmt_id s0) h)).
+Proof. intros s0 H. destruct s0; try discriminate; repeat split. Qed.
+
+Lemma const_hazard_nonempty : forall q m, q <> [] -> const_hazard q m = existsb (stmt_hazard (last q [])) m.
+Proof. intros q m H. destruct q; [contradiction | reflexivity]. Qed.
+
+Definition pair_inv (x : c14_input) (i0 o : amodule) (pr : str * str * evald) : Prop :=
+  exists n pi src p dst,
+    find_in_ast_log (dotted (fst (fst pr))) i0 = Ok (Some n, [])
+    /\ node_view n = (1 :: pi, src) /\ leaf_pnode src = true
+    /\ resolve_at [0] (q_of pr) (ci_out x) = Some (0 :: p, dst) /\ is_parg dst = is_parg src
+    /\ first_hit_list (q_of pr) o = Some (0 :: p)
+    /\ forallb (class_loc_free (q_of pr)) o = true
+    /\ const_hazard (q_of pr) o = false
+    /\ (is_parg src = true -> forallb (id_free (0 :: p)) o = true)
+    /\ (is_parg src = false -> existsb (stmt_exists (is_parent_func (q_of pr))) o = false).
+
+Fixpoint hz_pairs (i0 : amodule) (pairs : list (str * str * evald)) : bool :=
+  match pairs with
+  | [] => true
+  | pr :: rest =>
+    match find_in_ast_log (dotted (fst (fst pr))) i0 with
+    | Ok (Some n, _) =>
+      match node_as_stmt n with
+      | Ok s => forallb (fun pr' => negb (stmt_hazard (last (q_of pr') []) s)) rest
+      | Err _ => true
+      end
+    | _ => true
+    end && hz_pairs i0 rest
+  end.
+
+Lemma q_of_nonempty : forall pr, q_of pr <> [].
+Proof. intros pr. apply dotted_nonempty. Qed.
+
+Lemma multi_success_loop : forall x env i0 pairs o,
+    Forall (pair_inv x i0 o) pairs ->
+    existsb (stmt_exists dirty) o = false ->
+    locs_distinct (map q_of pairs) = true ->
+    quiet_loop env false None pairs i0 o = true ->
+    hz_pairs i0 pairs = true ->
+    exists o', sync_loop env false None pairs i0 o = Ok (o', i0) /\ existsb (stmt_exists dirty) o' = false.
+Proof.
+  intros x env i0 pairs. induction pairs as [|[[ip op] e] rest IH]; intros o Hinv Hclean Hd Hq Hhz.
+  - exists o. split; [reflexivity | assumption].
+  - inversion Hinv as [|pr0 l0 Hinv1 Hinvr]; subst.
+    destruct Hinv1 as [n [pi [src [p [dst [Hfind [Hview [Hleaf [Hres [Hkind [Hfh [Hclf [Hhaz [Hidf Hpar]]]]]]]]]]]]]].
+    unfold q_of in Hres, Hfh, Hclf, Hhaz, Hpar. simpl in Hfind, Hres, Hfh, Hclf, Hhaz, Hpar.
+    (* the rewrite of this pair *)
+    assert (Hrw : exists rs0 g st,
+               node_as_stmt n = Ok rs0 /\ is_container n = false
+               /\ rewrite_visit (dotted op) n o = Ok (NMod g, st) /\ rw_replaced st = true
+               /\ existsb (stmt_exists dirty) g = false
+               /\ (is_arg_node n = true \/ existsb (stmt_exists (is_parent_func (dotted op))) o = false)
+               /\ (forall h p', h = 0 :: p' -> id_free h rs0 = true)
+               /\ (forall q', stmt_exists (is_parent_func q') rs0 = false)).
+    { destruct (leaf_node_cases _ _ _ Hview Hleaf) as [[Hpa [a [En Ea]]]|[Hps [s0 [En [Es Hl0]]]]]; subst n.
+      - destruct (rewrite_arg_ok' (dotted op) a o (0 :: p) (dotted_nonempty op) Hfh (Hidf Hpa) Hclean)
+          as [g [st [Hrv [Hrep [_ Hcg]]]]].
+        exists (AArgS a), g, st. repeat split; try assumption; try reflexivity.
+        + left. reflexivity.
+        + intros h p' Eh. subst h. simpl. rewrite Ea. reflexivity.
+      - destruct (leaf_astmt_facts s0 Hl0) as [Hd0 [Hc0 [Hp0 Hi0]]].
+        destruct (rewrite_stmt_ok (dotted op) s0 Hd0 o (0 :: p) (dotted_nonempty op) (Hpar Hps) Hclean Hfh)
+          as [g [st [Hrv [Hrep [_ Hcg]]]]].
+        exists s0, g, st. repeat split; try assumption; try reflexivity.
+        + right. exact (Hpar Hps).
+        + intros h p' Eh. subst h. rewrite Hi0. simpl in Es. rewrite Es. reflexivity. }
+    destruct Hrw as [rs0 [g [st [Hrs0 [Hcont [Hrv [Hrep [Hcg [Hdisj [Hid0 Hpar0]]]]]]]]]].
+    assert (Hsp : sync_property env false ip i0 e op None o (is_empty rest) = Ok (g, i0)).
+    { eapply sync_property_success with (n := n) (log := []) (repl := n) (o2 := o); try eassumption.
+      rewrite !apply_dlog_nil. reflexivity. }
+    assert (Hprep : sp_prepare env false ip i0 e op None o = Ok (n, i0, o)).
+    { unfold sp_prepare. fold (dotted ip). rewrite Hfind. simpl. rewrite !apply_dlog_nil. reflexivity. }
+    simpl in Hq. rewrite Hprep, Hsp in Hq. apply andb_true_iff in Hq. destruct Hq as [Hnq Hq'].
+    simpl in Hd. apply andb_true_iff in Hd. destruct Hd as [Hnotin Hd']. apply negb_true_iff in Hnotin.
+    unfold q_of in Hnotin. simpl in Hnotin.
+    simpl in Hhz. rewrite Hfind, Hrs0 in Hhz. apply andb_true_iff in Hhz. destruct Hhz as [Hhz1 Hhz'].
+    assert (HqQ : forall q', In q' (map q_of rest) -> q' <> dotted op).
+    { intros q' Hin E. subst q'. pose proof (existsb_In_false _ _ _ _ Hnotin Hin) as Hc.
+      rewrite loc_eqb_refl in Hc. discriminate. }
+    destruct (rewrite_preserves (dotted op) (map q_of rest) HqQ n o g st (dotted_nonempty op) Hrv Hnq Hclf) as [F C].
+    destruct (rewrite_good (dotted op) n rs0 Hrs0 o g st (dotted_nonempty op) Hrv Hdisj) as [GA [GB GC]].
+    assert (Hinv' : Forall (pair_inv x i0 g) rest).
+    { rewrite Forall_forall in *. intros pr Hin.
+      destruct (Hinvr pr Hin) as [n' [pi' [src' [p' [dst' [Hf' [Hv' [Hl' [Hr' [Hk' [Hfh' [Hclf' [Hhaz' [Hidf' Hpar']]]]]]]]]]]]]].
+      exists n', pi', src', p', dst'. repeat split; try assumption.
+      - rewrite F by (apply in_map; assumption). assumption.
+      - rewrite C. assumption.
+      - rewrite const_hazard_nonempty in * by apply q_of_nonempty. apply GC; [|assumption].
+        rewrite forallb_forall in Hhz1. specialize (Hhz1 pr Hin). apply negb_true_iff in Hhz1. exact Hhz1.
+      - intros Hs. apply GA; [apply (Hid0 _ p' eq_refl) | apply Hidf'; assumption].
+      - intros Hs. apply GB; [apply Hpar0 | apply Hpar'; assumption]. }
+    destruct (IH g Hinv' Hcg Hd' Hq' Hhz') as [o' [Hl' Hc']].
+    exists o'. simpl. rewrite Hsp. simpl. split; assumption.
+Qed.
+
+(* ------------------------------------------------------------------ from the guard to the loop invariant *)
+Lemma pair_inv_init : forall x ip op e p0 dst pi0 src,
+    ci_eval x = false -> supported (ci_in x) = true ->
+    pair_class x ip op = None ->
+    resolve (dotted op) (ci_out x) = Some (p0, dst) -> resolve (dotted ip) (ci_in x) = Some (pi0, src) ->
+    leaf_pnode src = true ->
+    (match find_in_ast_log (dotted ip) (annotate_at [1] (ci_in x)) with Ok (_, []) => true | _ => false end) = true ->
+    forallb (class_loc_free (dotted op)) (annotate_at [0] (ci_out x)) = true ->
+    pair_inv x (annotate_at [1] (ci_in x)) (annotate_at [0] (ci_out x)) (ip, op, e).
+Proof.
+  intros x ip op e p0 dst pi0 src Hev Hsi Epc Ero Eri Hleaf Hlog Hclf.
+  pose proof (resolve_at_some [0] _ _ _ _ (dotted_nonempty op) Ero) as Hro.
+  pose proof (resolve_at_some [1] _ _ _ _ (dotted_nonempty ip) Eri) as Hri.
+  simpl app in Hro, Hri.
+  destruct (pair_class_facts x ip op Hev Epc) as [Hin Hout]. rewrite Hro in Hout. simpl in Hout.
+  unfold pair_class in Epc. rewrite Hev, Hin in Epc.
+  destruct (rw_finding_class_at [0] (ci_out x) (dotted op)) eqn:E2; [discriminate|].
+  rewrite Hri, Hro in Epc.
+  destruct (is_parg src && negb (is_parg dst)) eqn:G1; [discriminate|].
+  destruct (negb (is_parg src) && is_parg dst) eqn:G2; [discriminate|].
+  match type of Epc with context [if ?c then Some K14_wrap_without_annotation else _] => destruct c eqn:G3 end;
+    [discriminate|].
+  destruct (negb (is_parg dst) && existsb (stmt_exists (is_parent_func (dotted op))) (annotate_at [0] (ci_out x)))
+           eqn:G4; [discriminate|]. clear Epc.
+  unfold rw_finding_class_at in E2.
+  destruct (const_hazard (dotted op) (annotate_at [0] (ci_out x))) eqn:Ehz; [discriminate|]. clear E2.
+  pose proof (C15_partial_at [1] _ _ Hsi Hin) as Hfv. rewrite Hri in Hfv. unfold find_view_at, find_in_ast in Hfv.
+  destruct (find_in_ast_log (dotted ip) (annotate_at [1] (ci_in x))) as [[rn log]|er] eqn:Efind; simpl in Hfv; [|discriminate].
+  destruct rn as [n|]; simpl in Hfv; [|discriminate]. inversion Hfv as [Hview]. clear Hfv.
+  destruct log as [|lg lgs]; [|discriminate].
+  assert (Hpd : is_parg dst = is_parg src).
+  { destruct (is_parg src); destruct (is_parg dst); simpl in *; congruence. }
+  exists n, pi0, src, p0, dst. unfold q_of. simpl.
+  split; [exact Efind|]. split; [assumption|]. split; [assumption|]. split; [assumption|]. split; [assumption|].
+  split; [assumption|]. split; [assumption|]. split; [assumption|]. split.
+  - intros Hpa. rewrite <- Hpd in Hpa. destruct dst as [dm|ds|da]; simpl in Hpa; try discriminate.
+    exact (arg_free_module _ _ _ _ _ Hro).
+  - intros Hps. rewrite <- Hpd in Hps. rewrite Hps in G4. simpl in G4. exact G4.
+Qed.
+
+Lemma pair_inv_all : forall x, ci_eval x = false -> supported (ci_in x) = true ->
+    forall ips ops evs,
+      all_pairs_clean x ips ops = true ->
+      all_some (map (fun op => option_map fst (resolve (dotted op) (ci_out x))) ops) = true ->
+      all_some (map (fun ip => resolve (dotted ip) (ci_in x)) ips) = true ->
+      forallb (fun o => match o with Some (_, n) => leaf_pnode n | None => true end)
+              (map (fun ip => resolve (dotted ip) (ci_in x)) ips) = true ->
+      forallb (fun ip => match find_in_ast_log (dotted ip) (annotate_at [1] (ci_in x)) with
+                         | Ok (_, []) => true | _ => false end) ips = true ->
+      forallb (fun op => forallb (class_loc_free (dotted op)) (annotate_at [0] (ci_out x))) ops = true ->
+      Forall (pair_inv x (annotate_at [1] (ci_in x)) (annotate_at [0] (ci_out x))) (zip3 ips ops evs).
+Proof.
+  intros x Hev Hsi ips. induction ips as [|ip ips IH]; intros ops evs Hc Hro Hri Hlf Hlg Hcl; [constructor|].
+  destruct ops as [|op ops]; [constructor|].
+  simpl in Hc. destruct (pair_class x ip op) eqn:Epc; [discriminate|].
+  unfold all_some in Hro, Hri. simpl in Hro, Hri, Hlf, Hlg, Hcl.
+  apply andb_true_iff in Hro. destruct Hro as [Hro1 Hro2].
+  apply andb_true_iff in Hri. destruct Hri as [Hri1 Hri2].
+  apply andb_true_iff in Hlf. destruct Hlf as [Hlf1 Hlf2].
+  apply andb_true_iff in Hlg. destruct Hlg as [Hlg1 Hlg2].
+  apply andb_true_iff in Hcl. destruct Hcl as [Hcl1 Hcl2].
+  destruct (resolve (dotted op) (ci_out x)) as [[p0 dst]|] eqn:Ero; simpl in Hro1; [|discriminate].
+  destruct (resolve (dotted ip) (ci_in x)) as [[pi0 src]|] eqn:Eri; [|discriminate].
+  assert (Hrest : Forall (pair_inv x (annotate_at [1] (ci_in x)) (annotate_at [0] (ci_out x))) (zip3 ips ops (tl evs))).
+  { apply IH; assumption. }
+  simpl. destruct evs as [|ev evs]; constructor; try assumption;
+    eapply pair_inv_init; eassumption.
+Qed.
+
+Lemma zip3_forallb : forall (P : loc -> bool) ips ops evs,
+    forallb (fun op' => P (dotted op')) ops = true -> forallb (fun pr' => P (q_of pr')) (zip3 ips ops evs) = true.
+Proof.
+  intros P ips. induction ips as [|ip ips IH]; intros ops evs H; [reflexivity|].
+  destruct ops as [|op ops]; [reflexivity|]. simpl in H. apply andb_true_iff in H. destruct H as [H1 H2].
+  simpl. destruct evs as [|ev evs]; simpl; unfold q_of at 1; simpl; rewrite H1; apply IH; assumption.
+Qed.
+
+Lemma hz_of_hazard_free : forall x ips ops evs, hazard_free_pairs x ips ops = true ->
+    hz_pairs (annotate_at [1] (ci_in x)) (zip3 ips ops evs) = true.
+Proof.
+  intros x ips. induction ips as [|ip ips IH]; intros ops evs H; [reflexivity|].
+  destruct ops as [|op ops]; [reflexivity|]. simpl in H. apply andb_true_iff in H. destruct H as [H1 H2].
+  assert (Hhead : forall rest' : list (str * str * evald), rest' = zip3 ips ops (tl evs) ->
+             match find_in_ast_log (dotted ip) (annotate_at [1] (ci_in x)) with
+             | Ok (Some n, _) =>
+               match node_as_stmt n with
+               | Ok s => forallb (fun pr' => negb (stmt_hazard (last (q_of pr') []) s)) rest'
+               | Err _ => true
+               end
+             | _ => true
+             end = true).
+  { intros rest' E. subst rest'. unfold in_stmt in H1.
+    destruct (find_in_ast_log (dotted ip) (annotate_at [1] (ci_in x))) as [[[n|] lg]|er]; try reflexivity.
+    destruct (node_as_stmt n) as [s|er]; [|reflexivity].
+    apply (zip3_forallb (fun q => negb (stmt_hazard (last q []) s))). exact H1. }
+  simpl. destruct evs as [|ev evs]; simpl.
+  - rewrite (Hhead (zip3 ips ops []) eq_refl). simpl. apply IH. assumption.
+  - rewrite (Hhead (zip3 ips ops evs) eq_refl). simpl. apply IH. assumption.
+Qed.
+
+Lemma run_multi : forall x i0 o0 o' i',
+    ast_parse [1] (ci_in x) = Ok i0 -> ast_parse [0] (ci_out x) = Ok o0 ->
+    Nat.eqb (List.length (ci_ips x)) (List.length (ci_ops x)) = true ->
+    sync_loop (ci_env x) (ci_eval x) (ci_wrap x) (zip3 (ci_ips x) (ci_ops x) (ci_evs x)) i0 o0 = Ok (o', i') ->
+    emit_file o' = Ok [EvWrite FOutput o'] ->
+    run_C14 x = ([EvWrite FOutput o'], Ok tt).
+Proof.
+  intros x i0 o0 o' i' Hi Ho Hl Hs He. unfold run_C14, sync_properties. rewrite Hi, Ho. cbn [bind].
+  rewrite Hl. cbn [negb]. rewrite Hs. cbn [bind fst]. rewrite He. reflexivity.
+Qed.
+
+Theorem C14_multi_total_lemma : forall x, guard_C14_multi_total x = true -> C14_multi_total_holds x.
+Proof.
+  intros x Hg. unfold guard_C14_multi_total in Hg.
+  apply andb_true_iff in Hg. destruct Hg as [Hg Hhzf].
+  apply andb_true_iff in Hg. destruct Hg as [Hg Hlogs].
+  apply andb_true_iff in Hg. destruct Hg as [Hg Hnw].
+  apply andb_true_iff in Hg. destruct Hg as [Hgm Hres].
+  pose proof Hgm as Hgm0. unfold guard_C14_multi in Hgm.
+  apply andb_true_iff in Hgm. destruct Hgm as [Hgm Hquiet].
+  apply andb_true_iff in Hgm. destruct Hgm as [Hgm Hclf].
+  apply andb_true_iff in Hgm. destruct Hgm as [Hgm Hdist].
+  apply andb_true_iff in Hgm. destruct Hgm as [Hgm Hclean].
+  apply andb_true_iff in Hgm. destruct Hgm as [Hdom Hev]. apply negb_true_iff in Hev.
+  destruct (domain_facts x Hdom) as [Hsi [Hso [Hleq [Hne [Hleafin Hleafout]]]]].
+  unfold no_wrap in Hnw. destruct (ci_wrap x) as [w|] eqn:Ew; [discriminate|].
+  unfold addresses_resolve in Hres. rewrite Hev in Hres. simpl in Hres.
+  apply andb_true_iff in Hres. destruct Hres as [Hres1 Hres2].
+  pose proof (pair_inv_all x Hev Hsi (ci_ips x) (ci_ops x) (ci_evs x) Hclean Hres1 Hres2 Hleafin Hlogs Hclf) as Hinv.
+  assert (Hd : locs_distinct (map q_of (zip3 (ci_ips x) (ci_ops x) (ci_evs x))) = true).
+  { apply Nat.eqb_eq in Hleq.
+    replace (map q_of (zip3 (ci_ips x) (ci_ops x) (ci_evs x))) with (map dotted (ci_ops x)); [assumption|].
+    rewrite <- (zip3_ops (ci_ips x) (ci_ops x) (ci_evs x) Hleq) at 1. rewrite map_map. reflexivity. }
+  try rewrite Ew in Hquiet.
+  destruct (multi_success_loop x (ci_env x) _ _ _ Hinv (annotate_clean [0] (ci_out x)) Hd Hquiet
+                               (hz_of_hazard_free x _ _ _ Hhzf)) as [o' [Hl Hc]].
+  assert (Hrun : run_C14 x = ([EvWrite FOutput o'], Ok tt)).
+  { apply (run_multi x (annotate_at [1] (ci_in x)) (annotate_at [0] (ci_out x)) o' (annotate_at [1] (ci_in x))).
+    - unfold ast_parse. rewrite Hsi. reflexivity.
+    - unfold ast_parse. rewrite Hso. reflexivity.
+    - assumption.
+    - rewrite Hev, Ew. exact Hl.
+    - apply clean_emit. assumption. }
+  exists o'. split; [assumption|]. apply C14_multi_lemma; [assumption|]. rewrite Hrun. reflexivity.
+Qed.
+
+(* ------------------------------------------------------------------ round 2: witnesses *)
+Definition x_mt_mixed : c14_input :=
+  w_call w_in_cls [L "K.lr"; L "K.m.a"; L "K.m.b"] w_out_cls [L "Cfg.q"; L "train.opt"; L "train.y"] None.
+Definition w_in_hz : module :=
+  [SClass (L "K") [] [SAnnAssign (EName (L "lr")) (EName (L "str")) (Some (EConst (VStr (L "x"))));
+                      SAnnAssign (EName (L "m")) (EName (L "int")) None] []].
+Definition w_out_hz : module :=
+  [SClass (L "Cfg") [] [SAnnAssign (EName (L "lr")) (EName (L "float")) None;
+                        SAnnAssign (EName (L "x")) (EName (L "float")) None] []].
+Definition x_hz : c14_input := w_call w_in_hz [L "K.lr"; L "K.m"] w_out_hz [L "Cfg.lr"; L "Cfg.x"] None.
+
+Lemma C14_multi_total_nonvacuous_lemma :
+  guard_C14_multi_total x_mt_mixed = true /\ C14_at_b x_mt_mixed = true
+  /\ guard_C14_multi_total (w_call w_in_ff [L "f.a"; L "f.b"] w_out_ff [L "f.a"; L "f.b"] None) = true
+  /\ guard_C14_multi_total (w_call w_in_cls [L "K.lr"; L "K.m.a"] w_out_cls [L "Cfg.lr"; L "train.x"] None) = true.
+Proof. repeat split; vm_compute; reflexivity. Qed.
+
+Lemma C14_multi_total_side_conditions :
+  (* a moved node holding a string constant equal to the last segment of a later address: the model declines *)
+  (guard_C14_multi x_hz = true /\ addresses_resolve x_hz = true /\ logs_empty x_hz = true
+   /\ hazard_free_pairs x_hz (ci_ips x_hz) (ci_ops x_hz) = false /\ run_C14 x_hz = ([], Err Unmodelled))
+  (* logs_empty (and no_wrap) restrict the PROOF, not the truth: an input argument with a default still succeeds *)
+  /\ (guard_C14_multi (x_multi3 None) = true /\ logs_empty (x_multi3 None) = false
+      /\ is_write (run_C14 (x_multi3 None)) = true).
+Proof. repeat split; vm_compute; reflexivity. Qed.
